@@ -15,7 +15,7 @@ B (relational): a batched instance (B in 2..5) and B identically parameterised b
    for all eight classes, exact dyadic mode for the linear family).
 """
 from __future__ import annotations
-import copy, math, random
+import copy, math, os, random
 import numpy as np
 from ..core import Check, MachineryFailure
 from .. import tlc, tracecheck
@@ -24,6 +24,9 @@ from ..impl_neuron import NeuronProbe, CLASSES, ADAPTIVE, ADAPTIVE_THRESH, RECIP
 from .neuron_common import (TLCJobs, validate_neuron_traces, draw_inputs, OFF, SCALE)
 
 PID = "C11"
+# TLC evaluates a quantifier over a long sequence (histories of a delayed Conv2D: hundreds of values
+# per stage) recursively: give the JVMs started by this check a deeper thread stack
+os.environ.setdefault("JAVA_TOOL_OPTIONS", "-Xss64m")
 XS = 1 << 16            # scale of exact real values
 RTOL, ATOL = 1e-5, 1e-6
 
@@ -131,8 +134,15 @@ def _jsonable(d):
 
 
 # ------------------------------------------------------------------ the fixtures of one run
+# every exported trainer, batch_reduction = sum (name, connection with learnable delays)
+TRAINERS = [("STDP", False), ("STDP", True), ("TripletSTDP", False), ("MSTDP", False), ("MSTDP", True),
+            ("MSTDPET", False), ("KernelSTDP", False), ("KernelSTDP", True), ("DelayAdjustedSTDP", True),
+            ("DelayAdjustedSTDPD", True), ("DelayAdjustedMSTDP", True), ("DelayAdjustedMSTDPD", True),
+            ("DelayAdjustedKernelSTDP", True), ("DelayAdjustedKernelSTDPD", True), ("LinearHomeostasis", False)]
+
+
 def fixtures(rng: random.Random, tier: str):
-    reps = 1 if tier == "quick" else 5
+    reps = 1 if tier == "quick" else 8
     out = []
     for _ in range(reps):
         for mode in ("exact", "tol"):
@@ -148,9 +158,8 @@ def fixtures(rng: random.Random, tier: str):
             for name in ("Serial", "Biclique", "RecurrentSerial"):
                 for d in (False, True):
                     out.append(lambda m=mode, n=name, d=d: LayerFix(rng, rng.randint(2, 5), m, n, d))
-            for tr in ("STDP", "TripletSTDP", "MSTDP", "MSTDPET"):
-                out.append(lambda m=mode, tr=tr: LayerFix(rng, rng.randint(2, 5), m, "Serial", False, tr))
-            out.append(lambda m=mode: LayerFix(rng, rng.randint(2, 5), m, "Serial", True, "STDP"))
+            for tr, d in TRAINERS:
+                out.append(lambda m=mode, tr=tr, d=d: LayerFix(rng, rng.randint(2, 5), m, "Serial", d, tr))
     return out
 
 
@@ -173,6 +182,7 @@ def record_pairs(chk: Check, rng, tier):
                 tr = encode(fix, log, False)
             except NotExact:
                 continue
+        tr["hdr"]["active"] = _activity(fix, log)
         traces.append(tr)
         d = fix.desc
         key = (fix.kind, tr["hdr"]["mode"], fix.B, str(sorted(_jsonable(d).items())))
@@ -180,6 +190,22 @@ def record_pairs(chk: Check, rng, tier):
     if downgraded:
         chk.note(f"{downgraded} dyadic recipes left the exact grid and were validated with tolerances")
     return traces
+
+
+def _activity(fix, log) -> int:
+    """how much happened: spikes emitted (neurons, layers), non-zero currents (synapses,
+    connections), non-zero accumulated parts (trainers)"""
+    n = 0
+    for rec in log:
+        if "acc_b" in rec:
+            n += int(sum(int((a != 0).sum()) for a in rec["acc_b"]))
+            continue
+        disc, real = rec["b"][-1]
+        if fix.kind in ("neuron", "layer"):
+            n += int(sum(int(t.sum()) for t in disc[:1 if fix.kind == "neuron" else len(disc) // 2]))
+        else:
+            n += int((real[0] != 0).sum())
+    return n
 
 
 def classify(rej):
@@ -218,6 +244,10 @@ def validate_pairs(chk: Check, traces, site, report=True, shards=6):
             k = f"{t['hdr']['kind']}/{t['hdr']['mode']}"
             kinds[k] = kinds.get(k, 0) + 1
         chk.extra["pair_traces"] = kinds
+        idle = [f"{t['hdr']['kind']}/{t['hdr']['mode']}/{t['hdr']['desc']}" for t in traces if not t["hdr"].get("active", 1)]
+        chk.extra["pair_traces_without_activity"] = len(idle)
+        if len(idle) > len(traces) // 5:
+            raise MachineryFailure(f"too many batched-vs-single pairs without any activity (vacuous): {idle[:5]}")
         chk.note(f"traces[{site}]: {len(traces)} batched-vs-single pairs ({kinds}), {nev} per-sample step comparisons, "
                  f"rejected lines={len(rej)}")
         t = next((t for t in traces if t["hdr"]["kind"] == "layer" and t["ev"][0]["acc"]["on"]), traces[0])
@@ -231,7 +261,7 @@ def projection_traces_category(chk: Check, rng: random.Random, tier: str):
     """batched neurons (adaptation frozen), per-sample random / adversarial drives; every element
     of the batched run, projected, must be a behaviour of the single-element NeuronStep spec"""
     traces, metas = [], []
-    reps = 1 if tier == "quick" else 4
+    reps = 1 if tier == "quick" else 8
     for _ in range(reps):
         for cls in CLASSES:
             B = rng.randint(2, 5)
@@ -281,7 +311,7 @@ def projection_traces_dyadic(chk: Check, rng: random.Random, tier: str):
     determined by that sample's inputs alone"""
     traces, metas = [], []
     S = SCALE
-    reps = 2 if tier == "quick" else 8
+    reps = 2 if tier == "quick" else 16
     for _ in range(reps):
         for cls in ("LIF", "GLIF1", "ALIF", "GLIF2"):
             fix = NeuronFix(rng, rng.randint(2, 5), "exact", cls)
@@ -332,9 +362,14 @@ def projection_traces_dyadic(chk: Check, rng: random.Random, tier: str):
 def canary_pairs(chk: Check, traces):
     """(a) sample 2's spike of the batched run leaks into sample 1's discrete projection;
     (b) a real value off by 5 units; (c) a batched accumulated part that is not the sum."""
-    src = next((t for t in traces if t["hdr"]["kind"] in ("neuron", "layer") and t["hdr"]["mode"] == "exact"), None)
-    acc = next((t for t in traces if t["ev"][0]["acc"]["on"] and any(any(e["acc"]["b"]) for e in t["ev"])), None)
+    clean = [t for t in traces if not t["hdr"]["waive"]]      # rejected traces carry their failing lines
+    src = next((t for t in clean if t["hdr"]["kind"] in ("neuron", "layer") and t["hdr"]["mode"] == "exact"
+                and any(e["s"][0][-1]["db"] != e["s"][1][-1]["db"] for e in t["ev"])), None)
+    acc = next((t for t in clean if t["ev"][0]["acc"]["on"] and any(any(e["acc"]["b"]) for e in t["ev"])), None)
     if src is None or acc is None:
+        if chk.violations:
+            chk.note("canary (pairs) skipped: no accepted trace left to corrupt - violations are being reported")
+            return
         raise MachineryFailure("canary: no suitable pair trace recorded")
     good = copy.deepcopy(src); good["hdr"]["waive"] = []
     bad1 = copy.deepcopy(good)
@@ -375,8 +410,12 @@ def canary_pairs(chk: Check, traces):
 def canary_projection(chk: Check, traces):
     """a per-sample projection whose voltage takes another sample's value must leave the
     single-element spec"""
-    src = next((t for t in traces if t["hdr"]["c"]["dy"] and len(t["ev"]) >= 3), None)
+    src = next((t for t in traces if t["hdr"]["c"]["dy"] and len(t["ev"]) >= 3 and not t["hdr"]["waive"]
+                and t["hdr"]["wc"] == ["SpikeAttr"]), None)
     if src is None:
+        if chk.violations:
+            chk.note("canary (projection) skipped: no accepted trace left to corrupt - violations are being reported")
+            return
         raise MachineryFailure("canary: no dyadic projection trace")
     good = copy.deepcopy(src); good["hdr"]["waive"] = []; good["hdr"]["wc"] = ["SpikeAttr"]
     bad = copy.deepcopy(good)
@@ -398,9 +437,9 @@ def run(tier: str, seed: int) -> int:
                          "(class, lock, D, R, lax, spike pattern) element traces of batched runs with a spike.")
     quick = tier == "quick"
     jobs = TLCJobs(parallel=3)
-    mc = [("B2-frozen-sum", batch_mc_constants(2, {1, 2}, 3, 4 if quick else 5)),
-          ("B2-adaptive-same-mean", batch_mc_constants(2, {1, 2}, 3, 5 if quick else 7, adapt=True, same=True, reduce="mean")),
-          ("B3-frozen-sum", batch_mc_constants(3, {1}, 2, 3 if quick else 4, curs=(0, 16)))]
+    mc = [("B2-frozen-sum", batch_mc_constants(2, {1, 2}, 3, 4 if quick else 6)),
+          ("B2-adaptive-same-mean", batch_mc_constants(2, {1, 2}, 3, 5 if quick else 8, adapt=True, same=True, reduce="mean")),
+          ("B3-frozen-sum", batch_mc_constants(3, {1}, 2, 3 if quick else 5, curs=(0, 16)))]
     try:
         for name, consts in mc:
             jobs.submit(name, "BatchMC", tlc.cfg_text(constants=consts, invariants=BATCH_INVARIANTS,
